@@ -31,6 +31,9 @@ type c11Plan struct {
 	Kind   string `json:"kind"`
 	A      int    `json:"a"`
 	B      int    `json:"b"`
+	// Refeed: how often the operator feeds an operation that its machine refused to the same running machine again
+	// (re-scanning the QR codes after seeing an error): the refusal must be repeated every time
+	Refeed int `json:"refeed,omitempty"`
 }
 
 var c11Kinds = []string{
@@ -41,7 +44,8 @@ var c11Kinds = []string{
 func c11Gen(rt *rapid.T) c11Plan {
 	nt := rapid.SampledFrom([][2]int{{2, 2}, {3, 2}, {3, 3}, {4, 3}, {5, 3}}).Draw(rt, "nt")
 	return c11Plan{N: nt[0], T: nt[1], Dealer: rapid.IntRange(0, nt[0]-1).Draw(rt, "dealer"), Victim: rapid.IntRange(1, nt[0]-1).Draw(rt, "victim"),
-		Kind: rapid.SampledFrom(c11Kinds).Draw(rt, "kind"), A: rapid.IntRange(0, 100000).Draw(rt, "a"), B: rapid.IntRange(0, 255).Draw(rt, "b")}
+		Kind: rapid.SampledFrom(c11Kinds).Draw(rt, "kind"), A: rapid.IntRange(0, 100000).Draw(rt, "a"), B: rapid.IntRange(0, 255).Draw(rt, "b"),
+		Refeed: rapid.SampledFrom([]int{0, 0, 1, 2}).Draw(rt, "refeed")}
 }
 
 type c11Obs struct {
@@ -51,7 +55,9 @@ type c11Obs struct {
 	Panic      string
 	Keyrings   []bool
 	Err        error
-	Consistent bool // the altered contribution happened to be consistent (e.g. swap of equal points)
+	Consistent bool   // the altered contribution happened to be consistent (e.g. swap of equal points)
+	Refed      int    // refused operations fed again
+	Relented   string // non-empty: a machine that had refused an operation accepted it when it was fed again
 }
 
 func c11Execute(p c11Plan, root string) (obs c11Obs) {
@@ -226,6 +232,31 @@ func c11Execute(p c11Plan, root string) (obs c11Obs) {
 		}
 		if strings.HasSuffix(string(res.Event), "_error") {
 			obs.VictimEv = append(obs.VictimEv, fmt.Sprintf("%d:%s", i, res.Event))
+			if i != D {
+				for k := 0; k < p.Refeed && obs.Relented == "" && obs.Panic == ""; k++ {
+					var again []byte
+					var aerr error
+					func() {
+						defer func() {
+							if r := recover(); r != nil {
+								obs.Panic = fmt.Sprintf("participant %d's airgapped machine panicked while handling %s again: %v", i, op.Type, r)
+							}
+						}()
+						again, aerr = w.Machines[i].Process(file)
+					}()
+					if obs.Panic != "" {
+						return fmt.Errorf("panic")
+					}
+					obs.Refed++
+					if aerr != nil {
+						continue // refused as a whole
+					}
+					var res2 types.Operation
+					if json.Unmarshal(again, &res2) == nil && !strings.HasSuffix(string(res2.Event), "_error") {
+						obs.Relented = fmt.Sprintf("participant %d's machine answered %s with %s, and attempt %d with the same operation with %s", i, op.Type, res.Event, k+2, res2.Event)
+					}
+				}
+			}
 		}
 		if i == D {
 			if err := mutate(op, &res); err != nil {
@@ -281,6 +312,12 @@ func c11Run(t *testing.T, st *vstat.Stats, p c11Plan) *viol {
 	}
 	if !obs.Applied {
 		return violf("harness", "%s: the deviation was never applied", desc)
+	}
+	if obs.Relented != "" {
+		return violf("refusal-not-repeated:"+p.Kind, "%s: %s", desc, obs.Relented)
+	}
+	if obs.Refed > 0 {
+		st.Class("refused-operation-fed-again")
 	}
 	ready := false
 	allCancelled := true
